@@ -405,6 +405,9 @@ static void check_string(const char *s, size_t len)
         }
         if (ok) {
             n_libc_both++;
+            /* a plain address used as a mask means "exactly this address": all 128 bits */
+            if (res[1] == len && bits[1] != 128)
+                viol("pton-plain-bits", "plain address '%s' yields a prefix length of %u bits, not 128", s, bits[1]);
             if (memcmp(&libc, &out[0], sizeof(libc)))
                 viol("pton-libc-disagree", "'%s': irc_pton reads %s, inet_pton reads %s", s, hex128(&out[0]), hex128(&libc));
             else
@@ -464,7 +467,7 @@ static void pton_grammar(unsigned long count)
     char buf[128];
     for (ii = 0; ii < count; ++ii) {
         irc_inaddr net;
-        unsigned int kind = rnd() % 8, a = rnd() & 255, b = rnd() & 255, c = rnd() & 255, d = rnd() & 255, n, g, k;
+        unsigned int kind = rnd() % 9, a = rnd() & 255, b = rnd() & 255, c = rnd() & 255, d = rnd() & 255, n, g, k;
         memset(&net, 0, sizeof(net));
         switch (kind) {
         case 0: /* a.b.c.d/n */
@@ -521,6 +524,15 @@ static void pton_grammar(unsigned long count)
             sprintf(buf + strlen(buf), "/%u", n);
             check_expect(buf, n, &net, 1);
             break;
+        case 8: { /* plain mixed notation: v6 prefix with "::" and an embedded dotted quad => 128 bits */
+            unsigned int pre = rnd() % 3;
+            if (pre == 0) { sprintf(buf, "::ffff:%u.%u.%u.%u", a, b, c, d); net.in6[5] = htons(65535); }
+            else if (pre == 1) { sprintf(buf, "64:ff9b::%u.%u.%u.%u", a, b, c, d); net.in6[0] = htons(0x64); net.in6[1] = htons(0xff9b); }
+            else { sprintf(buf, "0:0:0:0:0:ffff:%u.%u.%u.%u", a, b, c, d); net.in6[5] = htons(65535); }
+            net.in6_8[12] = a; net.in6_8[13] = b; net.in6_8[14] = c; net.in6_8[15] = d;
+            check_expect(buf, 128, &net, 1);
+            break;
+        }
         case 6: /* plain dotted quad => 128 bits */
             sprintf(buf, "%u.%u.%u.%u", a, b, c, d);
             net.in6[5] = htons(65535); net.in6_8[12] = a; net.in6_8[13] = b; net.in6_8[14] = c; net.in6_8[15] = d;
@@ -557,7 +569,7 @@ static const char *seeds[] = {
     "::1.2.3.4", "2001:db8::/32", "fe80::1/64", "1:2:3:4:5:6:7:8", "1:2:3:4:5:6:7:8/128", "1:2:3:4:5:6:1.2.3.4", "a:b:*",
     "*", "***", "0::", "0::1", "1:0:0:2::", "ffff:ffff:ffff:ffff:ffff:ffff:ffff:ffff", "1.2.3.4.5", "1.2.3.4.5.6.7.8",
     "1::2::3", ":1", "1:", "1.2.3", "1.2.3.4/33", "::/0", "::/129", "1:2:3:4:5:6:7::", "::2:3:4:5:6:7:8", "1::8/127",
-    "1:2:3:4:5:6:7:1.2.3.4", "::ffff:1.2.3.4/120", "1.2.3.4/", "1.2.3.4/a", "1.2.*.4", "1..2", ".1.2.3", " 1.2.3.4", "1.2.3.4 ",
+    "1:2:3:4:5:6:7:1.2.3.4", "::ffff:1.2.3.4/120", "::ffff:10.1.2.0", "64:ff9b::192.0.2.1", "0:0:0:0:0:ffff:1.2.3.4", "::ffff:10.1.2.0/24", "1:2::10.9.8.7", "1.2.3.4/", "1.2.3.4/a", "1.2.*.4", "1..2", ".1.2.3", " 1.2.3.4", "1.2.3.4 ",
     "256.1.1.1", "1.256.1.1", "1.2.3.256", "00000.0.0.1", "1:2:3:4:5:6:7:8:9", "12345::", "g::", "1:2:3:4:5:6:7:8.9", "::1.2.3.4.5",
     "1.2.3.4.5/8", "::.1.2.3", "1:2:3:4:5:6:7:*", "1:2:3:4:5:6:7:8:*", "1:2:3:4:5:6:7:8/", "::ffff:1.2.3.*", "1.2.3.4.*"
 };
